@@ -2239,6 +2239,7 @@ func (h *fsmHandler) loop(ctx context.Context, wg *sync.WaitGroup) {
 			StateReason: reason,
 		}
 
+		verifYield("fsm.beforeCallback", fsm)
 		h.callback(msg)
 		verifYield("fsm.beforeStateStore", fsm)
 		fsm.state.Store(nextState)
